@@ -146,6 +146,8 @@ type sbox struct {
 	reload chan event.GenericEvent
 
 	handlerCalls int
+	processedAt  map[string]int // service -> handler index of its last SetBalancer
+	lastFirstNodeEvent int      // handler index of the latest SetNode for a node the speaker did not know yet
 	configsDelivered int
 	configsRefused int
 	mon sboxMon
@@ -261,6 +263,9 @@ func (sb *sbox) boot(k *boxKernel) {
 	}
 	sb.lis = &k8s.Listener{ServiceChanged: sb.ctl.SetBalancer, ConfigChanged: sb.ctl.SetConfig, NodeChanged: sb.ctl.SetNode}
 	sb.reload = make(chan event.GenericEvent, 4096)
+	sb.processedAt = map[string]int{}
+	sb.lastFirstNodeEvent = 0
+	sb.handlerCalls = 0
 	lis := sb.lis
 	reload := func() { k.Enqueue("svc", sboxReloadReq) }
 	svcRec := &controllers.ServiceReconciler{
@@ -272,6 +277,7 @@ func (sb *sbox) boot(k *boxKernel) {
 			k.Yield("svc", "before-handler")
 			res := lis.ServiceHandler(l, name, svc, eps)
 			sb.handlerCalls++
+			sb.processedAt[name] = sb.handlerCalls
 			sb.c.Logf("   SetBalancer(%s) -> %v  %s", name, res, sb.stateLine())
 			sb.stepMonitor("svc:" + name)
 			k.Yield("svc", "after-handler")
@@ -306,8 +312,12 @@ func (sb *sbox) boot(k *boxKernel) {
 		ForceReload: reload,
 		Handler: func(l log.Logger, n *v1.Node) controllers.SyncState {
 			k.Yield("node", "before-handler")
+			_, known := sb.ctl.nodes[n.Name]
 			res := lis.NodeHandler(l, n)
 			sb.handlerCalls++
+			if !known {
+				sb.lastFirstNodeEvent = sb.handlerCalls
+			}
 			sb.c.Logf("   SetNode(%s labels=%v unavailable=%v) -> %v  %s", n.Name, n.Labels, k8snodes.IsNetworkUnavailable(n), res, sb.stateLine())
 			sb.stepMonitor("node:" + n.Name)
 			k.Yield("node", "after-handler")
@@ -402,6 +412,28 @@ func (sb *sbox) observe(addresses []string) *sboxObserved {
 		}
 	}
 	return o
+}
+
+// staleSinceNodeEvent: some service the speaker announces (or should announce) was last processed before
+// the speaker first heard of some node (own node included): the known weakness of SetNode, which
+// asks for no re-sync on the first event of a node.
+func (sb *sbox) staleSinceNodeEvent() bool {
+	if sb.lastFirstNodeEvent == 0 {
+		return false
+	}
+	for _, k := range vfSortedKeys(sb.k.Store.Services) {
+		if sb.processedAt[k] < sb.lastFirstNodeEvent {
+			return true
+		}
+	}
+	return false
+}
+
+func (sb *sbox) causeSuffix() string {
+	if sb.staleSinceNodeEvent() {
+		return ":service-not-reprocessed-after-first-event-of-a-node"
+	}
+	return ""
 }
 
 func (sb *sbox) stateLine() string {
